@@ -41,6 +41,8 @@ pub struct Logical {
     pub service: String,
     pub s3: bool,
     pub fold: bool,
+    /// header carrier: a second X-Amz-Date header with this value after the real one
+    pub dup_date: Option<Vec<u8>>,
 }
 
 /// How the wire request spells the logical one.
@@ -247,6 +249,7 @@ pub fn random_logical(rng: &mut Rng) -> Logical {
         service: rng.pick(&["service", "iam", "s3"]).to_string(),
         s3,
         fold,
+        dup_date: None,
     }
 }
 
@@ -288,6 +291,9 @@ pub fn sign_and_spell(l: &Logical, rng: &mut Rng, sp: &Spelling, now: (i64, u32)
                 signed.push("date".to_string());
             } else {
                 headers.push(("X-Amz-Date".to_string(), time_text.as_bytes().to_vec()));
+                if let Some(d2) = &l.dup_date {
+                    headers.push(("X-Amz-Date".to_string(), d2.clone()));
+                }
                 signed.push("x-amz-date".to_string());
             }
             if let Some(t) = &l.token {
